@@ -131,6 +131,12 @@ package server
 //@   guard-call route: "EndpointRemove" typeis(t.Listeners[i].Config, *handlers.External) && arg(1) == unboxed(t.Listeners[i].Config, *handlers.External).Config.Endpoint
 //@   guard-call row:   "ListenerRemove" arg(1) == Name
 
+// C10: the listener configuration is stored as text; list-valued settings are joined with ", " and
+// split again at ", " when the teamserver restarts - faithful only if no element contains ", ".
+//@ func (t *Teamserver) ListenerAdd(FromUser string, Type int, Config any) (pk packager.Package)
+//@   modifies *
+//@   guard-call sep: "Join" arg(1) == ", " && forall(k, 0, len(arg(0)), !contains(arg(0)[k], ", "))
+
 // C16: an edit reaches the running listener object itself (the one requests are served from),
 // for the listener with that name and for no other.
 //@ spec newCfg(c) = unboxed(c, handlers.HTTPConfig)
